@@ -29,22 +29,73 @@ pub enum Tree {
     P(Rc<Tree>, Rc<Tree>),
 }
 
+thread_local! {
+    /// Shared trees of all 1-, 2-, 4- and 8-bit words (index = depth 0..=3): long event logs
+    /// hold millions of word values, which are otherwise one allocation per bit and per pair.
+    static SMALL_WORDS: std::cell::RefCell<[Vec<Option<Tree>>; 4]> =
+        std::cell::RefCell::new([vec![None; 2], vec![None; 4], vec![None; 16], vec![None; 256]]);
+}
+
+fn small_word(depth: usize, code: usize) -> Tree {
+    if let Some(t) = SMALL_WORDS.with(|c| c.borrow()[depth][code].clone()) {
+        return t;
+    }
+    let t = if depth == 0 {
+        if code == 1 {
+            Tree::R(Rc::new(Tree::Unit))
+        } else {
+            Tree::L(Rc::new(Tree::Unit))
+        }
+    } else {
+        let half = 1usize << (depth - 1);
+        let hi = small_word(depth - 1, code >> half);
+        let lo = small_word(depth - 1, code & ((1 << half) - 1));
+        Tree::P(Rc::new(hi), Rc::new(lo))
+    };
+    SMALL_WORDS.with(|c| c.borrow_mut()[depth][code] = Some(t.clone()));
+    t
+}
+
 impl Tree {
+    /// (depth, bits) when this is the tree of a 1-, 2-, 4- or 8-bit word
+    fn small_code(&self, max_depth: usize) -> Option<(usize, usize)> {
+        match self {
+            Tree::L(x) if **x == Tree::Unit => Some((0, 0)),
+            Tree::R(x) if **x == Tree::Unit => Some((0, 1)),
+            Tree::P(a, b) if max_depth > 0 => {
+                let (da, ca) = a.small_code(max_depth - 1)?;
+                let (db, cb) = b.small_code(max_depth - 1)?;
+                if da == db {
+                    Some((da + 1, (ca << (1usize << da)) | cb))
+                } else {
+                    None
+                }
+            }
+            _ => None,
+        }
+    }
     pub fn l(t: Tree) -> Tree {
+        if t == Tree::Unit {
+            return small_word(0, 0);
+        }
         Tree::L(Rc::new(t))
     }
     pub fn r(t: Tree) -> Tree {
+        if t == Tree::Unit {
+            return small_word(0, 1);
+        }
         Tree::R(Rc::new(t))
     }
     pub fn p(a: Tree, b: Tree) -> Tree {
+        if let (Some((da, ca)), Some((db, cb))) = (a.small_code(2), b.small_code(2)) {
+            if da == db {
+                return small_word(da + 1, (ca << (1usize << da)) | cb);
+            }
+        }
         Tree::P(Rc::new(a), Rc::new(b))
     }
     pub fn bit(b: bool) -> Tree {
-        if b {
-            Tree::r(Tree::Unit)
-        } else {
-            Tree::l(Tree::Unit)
-        }
+        small_word(0, b as usize)
     }
     /// Compact textual form: `.` unit, `0x`/`1x` sums, `(ab)` product. Bit strings are run-length
     /// friendly: a left/right of unit prints as 0/1.
